@@ -147,7 +147,14 @@ public:
       return false;
     if constexpr(extents_type::rank() == 0)
       return true;
-    return a.extents_ == b.extents_ && a.strides_ == b.strides_;
+    else {
+      if (!(a.extents() == b.extents()))
+        return false;
+      for (rank_type r = 0; r < rank_; ++r)
+        if (a.stride(r) != index_type(b.stride(r)))
+          return false;
+      return true;
+    }
   }
 
 private:
